@@ -178,7 +178,8 @@ def initSuffix (n : Nat) (labelPos : List Nat) : Label :=
 
 /-- the `for k, v in get_initial_conditions().items()` loop body: variables contributed
     by base variable `k` (isotopomer names are fresh per base variable, so the updates are
-    local to this block) -/
+    local to this block).  The labelled name is `_assign_compound_labels([k], [suffix])[0]`
+    (after repo commit "fix: LabelMapper.build_model keeps a zero-label compound's ..."). -/
 def initBlock (lv : List (Name × Nat)) (initLabels : List (Name × List Nat)) (k : Name) (v : Rat) :
     List (LName × Rat) :=
   match lv.lookup k with
@@ -188,7 +189,7 @@ def initBlock (lv : List (Name × Nat)) (initLabels : List (Name × List Nat)) (
     let zeros := isos.map fun i => (i, (0 : Rat))
     match initLabels.lookup k with
     | none => setVar zeros (isos.headD (plain k)) v
-    | some pos => setVar zeros ⟨k, some (initSuffix n pos)⟩ v
+    | some pos => setVar zeros (assignLabel k (initSuffix n pos)) v
 
 def buildVars (lv : List (Name × Nat)) (initLabels : List (Name × List Nat))
     (vars : List (Name × Rat)) : List (LName × Rat) :=
